@@ -89,6 +89,21 @@ func VF_C11_Deals() {
 	if !allHonest {
 		// any deviation => the handler fails => the machine publishes the *_canceled_by_error event
 		vf.Assert("deviation-yields-error", err != nil)
+		if err != nil {
+			// the operator feeds the same operation again (re-scanned QR code, replayed log): still refused
+			var resps2 []*dkgp.Response
+			var err2 error
+			func() {
+				defer func() {
+					if r := recover(); r != nil {
+						panicked = true
+					}
+				}()
+				resps2, err2 = victim.ProcessDeals()
+			}()
+			vf.Assert("nopanic:ProcessDeals", !panicked)
+			vf.Assert("deviation-yields-error:on-retry", err2 != nil && len(resps2) == 0)
+		}
 	}
 	if err == nil {
 		vf.Assert("ready-implies-all-deals-ok", allHonest)
